@@ -325,8 +325,8 @@ def drop_attrs(toks, log, keep=()):
     return out
 
 
-def erase_async(toks, log):
-    """R3: `async fn` -> `fn`, `.await` erased."""
+def erase_async(toks, log, awaitcall=False):
+    """R3: `async fn` -> `fn`, `.await` erased (awaitcall: R3b, `.await` -> `.await_s()`, a stand-in method of the awaited future type)."""
     out = []
     k = 0
     while k < len(toks):
@@ -339,6 +339,11 @@ def erase_async(toks, log):
                 continue
         if _is(t, 'punct', '.'):
             n = _next_sig(toks, k)
+            if n < len(toks) and _is(toks[n], 'ident', 'await') and awaitcall:
+                log.append(('R3b', '.await -> .await_s()', t.line))
+                out.extend(lex('.await_s()'))
+                k = n + 1
+                continue
             if n < len(toks) and _is(toks[n], 'ident', 'await'):
                 log.append(('R3', '.await erased', t.line))
                 # also drop whitespace before the dot if the dot starts a line
